@@ -33,10 +33,12 @@ F0_IN = 191.35e12          # first in-band channel of the default amplifier band
 OOB = [190.0e12, 197.0e12]  # channels outside every C-band amplifier of the library
 
 
-def cfg_text(maxcross, emit=False):
+def cfg_text(maxcross, emit=False, pins='MCPinTots'):
     base = (tlc.SPEC / 'MC_AmpLaw.cfg').read_text().replace('MaxCross = 2', f'MaxCross = {maxcross}')
+    base = base.replace('PinTots <- MCPinTots', f'PinTots <- {pins}')
     if emit:
-        base = '\n'.join(ln for ln in base.splitlines() if not ln.startswith('INVARIANT')) + '\nINVARIANT Emit\n'
+        base = '\n'.join(ln for ln in base.splitlines() if not ln.startswith('INVARIANT')) + \
+            '\nINVARIANT Emit\nINVARIANT EmitSweepEntries\n'
     return base
 
 
@@ -124,7 +126,7 @@ def replay_history(js, idx, chk, stats, traces):
         si = load_si(h['pinRaw'], var)
         try:
             with Recording() as rec:
-                out = el(si)
+                el(si)
             e = L.edfa_event(rec.events[-1], st['gainTarget'] / 1e6)
         except Exception as ex:                                          # noqa
             chk.violation(f'B2|{shape}|exception|{type(ex).__name__}', dict(case=js, step=k, exception=traceback.format_exc()[-1200:]))
@@ -171,18 +173,41 @@ LIBRARIES = [(EX, 'eqpt_config.json'), (EX, 'eqpt_config_multiband.json'), (EX, 
              (TD, 'eqpt_config_psw.json'), (TD, 'eqpt_config_sweep.json'), (TD, 'eqpt_config_multiband.json')]
 
 
-def sweep_traces(chk):
-    """NF over increasing gain for every single-stage amplifier entry of every shipped library (real Edfa objects, low
-    power so that the gain is never clamped); the points are judged by TLC"""
+def synthetic_library(entries, chk):
+    """the TLC-enumerated min/max-NF entries as an equipment library; entries refused by the loader are skipped"""
+    from gnpy.tools.json_io import _equipment_from_json, DEFAULT_EXTRA_CONFIG
+    from gnpy.core.exceptions import EquipmentConfigError
+    raw = L.base_eqpt()
+    raw['Edfa'] = []
+    refused = 0
+    for i, e in enumerate(sorted(entries, key=lambda x: json.dumps(x, sort_keys=True))):
+        ent = {'type_variety': f'verif_sweep_{i}', 'type_def': 'variable_gain', 'gain_min': e['gainMin'] / 1e6,
+               'gain_flatmax': e['flatMax'] / 1e6, 'p_max': 23, 'nf_min': e['nfMin'] / 1e6, 'nf_max': e['nfMax'] / 1e6,
+               'out_voa_auto': False, 'allowed_for_design': False}
+        try:
+            _equipment_from_json({'Edfa': [copy.deepcopy(ent)]}, DEFAULT_EXTRA_CONFIG)
+        except EquipmentConfigError:
+            refused += 1
+            continue
+        raw['Edfa'].append(ent)
+    chk.cov['sweep_synthetic_entries_refused_by_loader'] = refused
+    return raw, _equipment_from_json(copy.deepcopy(raw), DEFAULT_EXTRA_CONFIG)
+
+
+def sweep_traces(chk, synthetic):
+    """NF over increasing gain for every single-stage amplifier entry of every shipped library and for the synthetic
+    entries TLC enumerated (real Edfa objects, low power so that the gain is never clamped); judged by TLC"""
     from gnpy.tools.json_io import load_equipments_and_configs, network_from_json
     from gnpy.core.info import create_arbitrary_spectral_information
     traces = []
     entries = 0
     minmax = 0
     step = 1.0 if chk.tier == 'quick' else 0.25
-    for d, fname in LIBRARIES:
-        raw = json.loads((d / fname).read_text())
-        eq = load_equipments_and_configs(d / fname, [], [])
+    libs = [(f'{d.name}/{fname}', json.loads((d / fname).read_text()), None, d / fname) for d, fname in LIBRARIES]
+    libs.append(('synthetic', *synthetic_library(synthetic, chk), None))
+    for fname, raw, eq, path in libs:
+        if eq is None:
+            eq = load_equipments_and_configs(path, [], [])
         for ent in raw.get('Edfa', []):
             tdef = ent.get('type_def', 'variable_gain')
             if tdef in ('dual_stage', 'multi_band'):
@@ -219,7 +244,7 @@ def sweep_traces(chk):
             ev = {'k': 'Sweep', 'typeDef': tdef, 'gainMin': udb(gmin), 'flatMax': udb(gmax), 'minmax': is_mm,
                   'nfMin': udb(ent.get('nf_min', 0)) if is_mm else 0, 'nfMax': udb(ent.get('nf_max', 0)) if is_mm else 0,
                   'pts': pts}
-            traces.append({'name': f'sweep {d.name}/{fname} {tv}', 'ev': [ev]})
+            traces.append({'name': f'sweep {fname} {tv}', 'ev': [ev]})
             entries += 1
             minmax += is_mm
             chk.case(f'sweep|{fname}|{tv}', nontrivial=True)
@@ -231,15 +256,27 @@ def sweep_traces(chk):
 
 # ----------------------------------------------------------------------------------------------------- B3 shipped
 def shipped_edfa_traces(chk, rng):
-    jobs = [j for j in L.SHIPPED if chk.tier == 'thorough' or j[0] != 'coronet']
+    """Edfa crossings inside the real propagate() on the shipped networks, plus two seeded variations of mesh V2:
+    a request with four times the channel count of the design (amplifiers saturate) and operator-set gain tilts"""
+    from gnpy.core.elements import Edfa
+    jobs = [j + ('',) for j in L.SHIPPED if chk.tier == 'thorough' or j[0] != 'coronet']
+    mesh = next(j for j in L.SHIPPED if j[0] == 'meshV2')
+    jobs += [mesh + ('dense',), mesh + ('tilt',)]
     npaths = 6 if chk.tier == 'quick' else 40
     traces = []
     crossings = 0
     types = {}
-    for name, topo, eqpt, _, sim in jobs:
+    devs = {}
+    seen = {'saturated': 0, 'padded': 0, 'extended': 0, 'tilt_nonflat': 0}
+    for name, topo, eqpt, _, sim, variant in jobs:
         L.set_sim(sim)
         try:
             eq, net, req, gains = L.load_designed(topo, eqpt)
+            if variant == 'dense':
+                req.spacing, req.baud_rate = 12.5e9, 10e9
+            if variant == 'tilt':
+                for n in sorted((x for x in net.nodes() if isinstance(x, Edfa)), key=lambda x: x.uid):
+                    n.tilt_target = rng.choice([-1.5, -0.5, 0.0, 1.0])
             for pname, evs in L.record_paths(eq, req, L.some_paths(net, rng, npaths)):
                 out = []
                 for ev in evs:
@@ -251,13 +288,23 @@ def shipped_edfa_traces(chk, rng):
                     e = L.edfa_event(ev, g, max_ch=12 if chk.tier == 'quick' else 24)
                     out.append(e)
                     types[e['typeDef']] = types.get(e['typeDef'], 0) + 1
+                    # evidence only (the verdict is TLC's): observed total gain against the reported effective gain
+                    cls = 'exact' if (e['flatIn'] or (e['tilt'] == 0 and not e['ripple'])) else 'solver'
+                    devs[cls] = max(devs.get(cls, 0), abs(e['gTot'] - (e['effObs'] - e['inVoa'] - e['outVoa'])))
+                    seen['saturated'] += e['effObs'] < e['gainSet'] - 3
+                    seen['padded'] += e['padObs'] > 0
+                    seen['extended'] += e['effObs'] > e['flatMax']
+                    seen['tilt_nonflat'] += cls == 'solver'
                 crossings += len(out)
-                traces.append({'name': f'{name} {pname}', 'ev': out})
+                traces.append({'name': f'{name}{"/" + variant if variant else ""} {pname}', 'ev': out})
         finally:
             L.set_sim(None)
     chk.cov['b3_networks'] = len(jobs)
     chk.cov['b3_edfa_crossings'] = crossings
     chk.cov['b3_amplifier_models_crossed'] = types
+    chk.cov['b3_crossings_by_regime'] = seen
+    chk.cov['b3_gain_law_worst_deviation_udb'] = devs
+    chk.cov['b3_gain_law_tolerance_udb'] = {'exact': 3, 'solver': 50000}
     return traces
 
 
@@ -296,25 +343,31 @@ def run(chk):
     r = tlc.run('MC_AmpLaw', cfg_text=cfg_text(b1), timeout=1800, tag='c04-mc')
     chk.add_mc(f'MC_AmpLaw MaxCross={b1}', r)
     chk.exhaustive = True
+    if chk.tier == 'thorough':
+        head = '\n'.join(ln for ln in cfg_text(2).splitlines() if not ln.startswith('INVARIANT'))
+        L.require_witnesses(chk, 'MC_AmpLaw', head, ['ProbeSaturated', 'ProbePadded', 'ProbeExtended', 'ProbePaddedSat',
+                                                      'ProbeRelief'], 'c04-probe')
     # ---- B2
-    r2 = tlc.run('MC_AmpLaw', cfg_text=cfg_text(emit, emit=True), timeout=1800, tag='c04-emit')
-    chk.add_mc(f'emit histories MaxCross={emit}', r2)
+    pins = 'MCPinTotsQuick' if chk.tier == 'quick' else 'MCPinTots'
+    r2 = tlc.run('MC_AmpLaw', cfg_text=cfg_text(emit, emit=True, pins=pins), timeout=1800, tag='c04-emit')
+    chk.add_mc(f'emit histories MaxCross={emit} PinTots={pins}', r2)
     if not r2.emitted:
         raise Machinery('no history emitted')
-    for a in {json.dumps(h['amp'], sort_keys=True) for h in r2.emitted}:
+    hists = [x for x in r2.emitted if 'hist' in x]
+    for a in {json.dumps(h['amp'], sort_keys=True) for h in hists}:
         check_library_matches(json.loads(a))
     lap('tlc_mc_and_emit')
     stats = Stats()
     b2_traces = []
     nsat = npad = nrelief = 0
-    for i, js in enumerate(r2.emitted):
+    for i, js in enumerate(hists):
         replay_history(js, i, chk, stats, b2_traces)
         nsat += any(h['sat'] for h in js['hist'])
         npad += any(h['regime'] == 'padded' for h in js['hist'])
         nrelief += any(a['sat'] and not b['sat'] for a, b in zip(js['hist'], js['hist'][1:]))
     if not (nsat and npad and nrelief):
         raise Machinery('vacuous generation')
-    chk.cov['b2_histories'] = len(r2.emitted)
+    chk.cov['b2_histories'] = len(hists)
     chk.cov['b2_histories_with_saturation'] = nsat
     chk.cov['b2_histories_with_padding'] = npad
     chk.cov['b2_histories_saturated_then_relieved'] = nrelief
@@ -325,7 +378,7 @@ def run(chk):
     report(chk, b2_traces, v2, 'B2trace')
     lap('b2_trace_judge')
     # ---- NF sweeps
-    sw = sweep_traces(chk)
+    sw = sweep_traces(chk, [x for x in r2.emitted if 'nfMin' in x])
     report(chk, sw, L.judge(chk, sw, 'c04-sweep'), 'sweep')
     lap('sweeps')
     # ---- B3
